@@ -337,7 +337,14 @@ fn dump_fn<'tcx>(tcx: TyCtxt<'tcx>, ldid: LocalDefId) -> J {
         promoted.push(J::obj(vec![("locals", J::Arr(plocals)), ("blocks", J::Arr(pblocks))]));
     }
     let sig_ret = body.local_decls[mir::RETURN_PLACE].ty.to_string();
+    // names of the generic parameters (parents first), in the order the generic arguments of a call to this function are listed
+    let generics = tcx.generics_of(did);
+    let mut gnames = Vec::new();
+    for i in 0..generics.count() {
+        gnames.push(J::s(generics.param_at(i, tcx).name.to_string()));
+    }
     J::obj(vec![
+        ("generics", J::Arr(gnames)),
         ("path", J::s(tcx.def_path_str(did))),
         ("name", match name { Some(n) => J::s(n), None => J::Null }),
         ("kind", J::s(kind)),
